@@ -164,6 +164,10 @@ func probe() string {
 	sb.WriteString(pscmp.Canon(opTable, intp))
 	err := intp.ExecuteString("1 2 add 3 mul [ 1 2 ] length StandardEncoding 65 get /CIDInit /ProcSet findresource /begincmap known errordict /typecheck known { 1 (a) add } exec")
 	sb.WriteString(pscmp.Canon(opTable, intp) + fmt.Sprint(err))
+	intp = postscript.NewInterpreter()
+	intp.MaxOps = 60
+	err = intp.ExecuteString("/k 0 def { /k k 1 add def } loop")
+	fmt.Fprintf(&sb, "budget: %v is-sentinel=%v k=%v ", err, err == postscript.ErrExecutionLimitExceeded, intp.UserDict["k"])
 	for _, in := range corpus.CMaps()[:2] {
 		sb.WriteString(observe.Run("cmap", bytes.NewReader(in.Data)).Obs)
 	}
@@ -184,7 +188,7 @@ func probe() string {
 	fmt.Fprintf(&sb, "%x %v", b.Bytes(), err)
 	sb.WriteString(observe.Run("afm", bytes.NewReader(corpus.AFMs()[1].Data)).Obs)
 	sb.WriteString(observe.Run("pfb", bytes.NewReader(corpus.PFBs()[0].Data)).Obs)
-	for _, n := range []string{"A", "f_f_i.alt", "a62", "uni00410042", "dalethatafpatah", "nosuchglyph"} {
+	for _, n := range []string{"A", "f_f_i.alt", "a62", "uni00410042", "dalethatafpatah", "lamedholamdagesh_A", "lamedholamdagesh_B", "nosuchglyph"} {
 		fmt.Fprintf(&sb, "%s=%v/%v ", n, names.ToUnicode(n, false), names.ToUnicode(n, true))
 	}
 	for _, r := range []rune{'A', 0x2026, 0x10FFFF, 0xFB01} {
@@ -298,6 +302,53 @@ func hostilePrograms() []hostile {
 		f.WritePDF(fw)
 		return true
 	}})
+	// errors and budget stops inside an eexec section, inside the readers, and
+	// with results of the look-up functions overwritten by the caller: shared
+	// error values and table entries must not be touched by any of it
+	eexecProg := func(plain string) string {
+		return "currentfile eexec\n" + string(corpus.Hex(corpus.Eexec([]byte(plain)))) + "\n"
+	}
+	hs = append(hs,
+		hostile{"budget hit inside an eexec section", func() bool {
+			intp := postscript.NewInterpreter()
+			intp.MaxOps = 150
+			err := intp.ExecuteString(eexecProg("/inside 1 def { } loop"))
+			return err != nil
+		}},
+		hostile{"every kind of error inside an eexec section", func() bool {
+			n := 0
+			for _, body := range []string{"1 (a) add", "pop", "nosuchname", "[ 1 2", "1 0 idiv", "(abc) 7 get", "/x load", "500 { 1 } repeat 1", "exit", "1 dict dup /a 1 put 2 dict copy << /x", "-1 array", "16#zz"} {
+				intp := postscript.NewInterpreter()
+				if intp.ExecuteString(eexecProg("/inside 1 def "+body+" /after 2 def")) != nil {
+					n++
+				}
+			}
+			return n > 0
+		}},
+		hostile{"budget and nesting limits hit inside the readers", func() bool {
+			loopFont := strings.Replace(font, "/PaintType 0 def", "/PaintType 0 def\n{ } loop", 1)
+			_, err1 := type1.Read(strings.NewReader(loopFont))
+			deepFont := strings.Replace(font, "/PaintType 0 def", "/PaintType 0 def\n/r {r} def r", 1)
+			type1.Read(strings.NewReader(deepFont))
+			_, err2 := postscript.ReadCMap(strings.NewReader(strings.Replace(cm, "begincmap", "begincmap { } loop", 1)))
+			return err1 != nil && err2 != nil
+		}},
+		hostile{"results of the name look-ups overwritten and extended by the caller", func() bool {
+			for _, n := range []string{"dalethatafpatah", "lamedholamdagesh", "lamedholamdagesh_A", "dalethatafpatah_B_C", "A", "a62", "f_f_i", "uni00410042", "u1F600", "Tcommaaccent", "finalkafqamats.alt"} {
+				for _, ding := range []bool{false, true} {
+					r := names.ToUnicode(n, ding)
+					for i := range r {
+						r[i] = 0xFFFD
+					}
+					if cap(r) > len(r) {
+						r[:cap(r)][len(r)] = 'X'
+					}
+					_ = append(r, 'Y', 'Z')
+				}
+			}
+			return true
+		}},
+	)
 	// inputs that differ from everything the probe workload reads: whatever a
 	// reader or writer keeps in package-level scratch storage is left in a
 	// different state than after the probe
